@@ -180,6 +180,14 @@ pub enum Error {
         identifier: String,
     },
 
+    /// An interface inherits from itself, either directly or through other interfaces.
+    CyclicInheritance {
+        /// The identifier of the interface that inherits from itself.
+        identifier: String,
+        /// The cycle that was found.
+        cycle: String,
+    },
+
     // ----------------  Attribute Errors ---------------- //
     /// An attribute was applied to a Slice element for which it's invalid.
     /// For example: applying `[oneway]` to a struct ('oneway' is only allowed on operations).
@@ -495,6 +503,12 @@ implement_diagnostic_functions!(
         CannotBeCompact,
         format!("'{kind}' '{identifier}' cannot be marked compact"),
         kind, identifier
+    ),
+    (
+        "E037",
+        CyclicInheritance,
+        format!("interface '{identifier}' illegally inherits from itself: {cycle}"),
+        identifier, cycle
     )
 );
 
